@@ -179,24 +179,35 @@ def simulate(workdir, constants, num, depth, seed, timeout=900):
     return behs
 
 
-def tours(workdir, constants, timeout=1500):
+def tours(workdir, constants, timeout=1500, probes=False):
     """Exhaustive TLC run that prints every distinct state once with a shortest path, and the transaction alphabet.
     Returns (paths, alphabet, states, transitions): paths = list of lists of act dicts."""
     cfg = os.path.join(workdir, 'tour.cfg')
-    write_cfg(cfg, 'Spec', constants, (), ['TourDump', 'AlphabetDump'], view='StateView')
+    write_cfg(cfg, 'Spec', constants, (), ['TourDump', 'AlphabetDump'] + (['ProbeDump'] if probes else []), view='StateView')
     rc, out, wall = run_tlc(workdir, 'MC.tla', 'tour.cfg', workers=NCPU, timeout=timeout, heap='16g')
     err = tlc_failed(out)
     if err:
         raise Inconclusive('tour generation failed: %s\n%s' % (err, out[-2000:]))
     gen, dist, depth = parse_mc_summary(out)
-    paths, alphabet = [], []
-    for m in re.finditer(r'^<<"(TOUR|ALPHABET)", "(.*)">>$', out, flags=re.M):
+    paths, alphabet, probe_txs = [], [], []
+    for m in re.finditer(r'^<<"(TOUR|ALPHABET|PROBES)", "(.*)">>$', out, flags=re.M):
         js = json.loads('"' + m.group(2) + '"')
         val = json.loads(js)
         if m.group(1) == 'TOUR':
             paths.append(val)
+        elif m.group(1) == 'PROBES':
+            probe_txs = val
         else:
             alphabet = val
+    if probe_txs:
+        # after EVERY probe the whole single-transaction alphabet is fired again (a later probe may undo what an earlier one left behind)
+        # (and re-fired before every single transaction: one that changes the state is undone by a restart, which also wipes process memory)
+        fire = []
+        for p in probe_txs:
+            for a in alphabet:
+                fire.append(p)
+                fire.append(a)
+        return paths, fire, dist, gen
     return paths, alphabet, dist, gen
 
 
